@@ -128,6 +128,9 @@ func runPurge(rc *RunCtx, prop, variant string) *simkit.Violation {
 	for i := 0; i < 6; i++ {
 		p.pool = append(p.pool, append([]byte(fmt.Sprintf("pool %d ", i)), t.Bytes(t.Pick(0, 10, 64, 100, 150))...))
 	}
+	if t.Bool(1, 2) {
+		p.pool = append(p.pool, []byte{}, []byte{}) // empty files (_SUCCESS, .keep): a root blob and no leaf
+	}
 	setup := w.Client("setup")
 	// ---- history
 	for _, pc := range p.ctxs {
@@ -733,6 +736,9 @@ func runPurgeCycles(rc *RunCtx, prop string) *simkit.Violation {
 	p.ctxs = []*purgeCtx{main}
 	for i := 0; i < 6; i++ {
 		p.pool = append(p.pool, append([]byte(fmt.Sprintf("pool %d ", i)), t.Bytes(t.Pick(0, 10, 64, 100, 150))...))
+	}
+	if t.Bool(1, 2) {
+		p.pool = append(p.pool, []byte{}, []byte{}) // empty files (_SUCCESS, .keep): a root blob and no leaf
 	}
 	setup := w.Client("setup")
 	for _, rn := range []string{"ra", "rb"}[:t.Range(1, 2)] {
